@@ -68,6 +68,7 @@ func Register() {
 			"the hard state's commit index may come back as an older written value after a crash (Tan deliberately does not fsync updates that only move commit); term and vote may not (param strict_commit=1 removes the relaxation)",
 			"durability is demanded of saves (SaveRaftState, SaveSnapshots, SaveBootstrapInfo, ImportSnapshot), not of RemoveEntriesTo / RemoveNodeData; an interrupted ImportSnapshot or RemoveNodeData may leave any per-record mixture and is repeated",
 			"I/O errors are only injected into operations issued on the calling goroutine and into Pebble's WAL writes/syncs: a failing operation on Tan's per-save sync goroutines or on Pebble's flush/compaction goroutines, and a failing kv CompactEntries, panic on a goroutine of the store and end the process (which satisfies the property trivially and cannot be observed in-process)",
+			"Tan closes its dbs in Go map order: a fault inside such a close lands on a fixed operation of a fixed db, but how far the other dbs had got is up to the Go runtime (measured: about 1 of 1000 sampled Tan crash/ioerr runs hashes differently between executions; a violation found there may need several replays)",
 			"crash points inside a Pebble CompactEntriesTo are at the API boundary only (a failing compaction panics on ShardedDB's worker goroutine); Pebble's background goroutines make its file-system operation order less than fully deterministic, see the determinism evidence",
 		}})
 }
@@ -77,7 +78,7 @@ const ruleText = "one run = one tape: a store kind (param), 2-3 (shard, replica)
 	"SaveSnapshots, RemoveEntriesTo, CompactEntriesTo, RemoveNodeData, ImportSnapshot, SaveBootstrapInfo, close+reopen, Tan obsolete-file job) " +
 	"each followed by random IterateEntries(low, high, maxSize) / ReadRaftState / GetSnapshot / GetBootstrapInfo / ListNodeInfo queries compared with RefStore. " +
 	"mode=crash: the disk loses power before the k-th mutating file-system operation (for Pebble only the operations of the calling goroutine and of its WAL writer are counted, " +
-	"and a CompactEntriesTo is only interrupted at its API boundary; inside a Tan close with more than one db, whose order is a Go map order, no torn tails are drawn; enum=1: workloads of 3-9 operations derived from the run index _i, " +
+	"and a CompactEntriesTo is only interrupted at its API boundary; inside a Tan close with more than one db, whose order is a Go map order, only the operations on one db picked by the tape are fault points, no torn tails are drawn and enumeration skips the window; enum=1: workloads of 3-9 operations derived from the run index _i, " +
 	"every k and both the clean and the torn-tail variant are enumerated; enum=0: window and offset drawn from the tape, API boundary if the window is shorter, up to two crashes), " +
 	"the store is reopened and every replica must equal an admissible state (acknowledged state; for the replicas of the interrupted save: before or after). " +
 	"mode=ioerr / kverr: the k-th file-system operation / kv.IKVStore call fails; the call must fail, or what it acknowledged must survive a power cut. " +
